@@ -544,7 +544,10 @@ class CellMethod(mixin.Container, core.CellMethod):
         new.set_axes(tuple(axes2))
 
         intervals = new.get_qualifier("interval", ())
-        if len(intervals) <= 1:
+        if len(intervals) != len(axes):
+            # There is not one interval per axis (a single interval
+            # applies to all of the axes), so there is nothing to
+            # reorder.
             return new
 
         intervals2 = []
